@@ -213,7 +213,8 @@ def run_r2(ctx, rule, tn):
                 rule.ok(what, f.loc(bi), "%s: %s" % (cls, why))
     rule.note("sites_by_class", counts)
     rule.note("tainted_sites", n_t)
-    if n_t < 40:
+    # (without overflow checks the compiler emits no overflow assertions: the floor is the debug-config count)
+    if n_t < 40 and not getattr(ctx, "floor_off", False):
         rule.bad("arith/floor", "only %d arithmetic sites with a declared operand recognised (at least 40 expected)" % n_t, kind="anchor-missing")
 
 
